@@ -617,11 +617,45 @@ def write_callsites(outdir):
         open(p, "w").write(text)
 
 
+def write_pydist(outdir):
+    """dtw.distance translated WHOLE (tools/pyfun.py, the Python front end of tools/cfun.py)"""
+    import pyfun
+    import cfun
+    try:
+        defs = pyfun.translate_distance(os.path.join(REPO, "src/dtaidistance/dtw.py"))
+    except cfun.TranslateError as exc:
+        raise TranslateError("pyfun: %s" % exc)
+    # the parameter names are part of the tie (positional application in the proofs)
+    import json
+    pins_path = os.path.join(os.path.dirname(os.path.abspath(__file__)), "expected_fv_py.json")
+    cur = {name: [p for p, _ in params] for name, params, ret, text in defs}
+    if os.environ.get("VERIF_WRITE_FV_PINS") == "1":
+        json.dump(cur, open(pins_path, "w"), indent=1, sort_keys=True)
+    else:
+        pins = json.load(open(pins_path))
+        if pins != cur:
+            bad = sorted(k for k in set(pins) | set(cur) if pins.get(k) != cur.get(k))
+            raise TranslateError("pyfun: parameter lists of %s differ from the pinned ones" % bad)
+    text = ("(* GENERATED by tools/translate_py.py (tools/pyfun.py) from src/dtaidistance/dtw.py -- do not edit *)\n"
+            "(* dtw.distance translated WHOLE: everything after the dispatch to the C engine *)\n"
+            "From Coq Require Import ZArith Bool List.\nFrom DV Require Import Prelude Cost CLang.\nImport ListNotations.\n"
+            "Open Scope Z_scope.\nOpen Scope bool_scope.\n\n" + cfun.render(defs))
+    p = os.path.join(outdir, "Gen_pydist.v")
+    old = open(p).read() if os.path.exists(p) else None
+    if old != text:
+        open(p, "w").write(text)
+
+
 _old_main = main
 
 
 def main():  # noqa: F811
     outdir = sys.argv[1] if len(sys.argv) > 1 else "/verif/coq/gen"
+    try:
+        write_pydist(outdir)
+    except (TranslateError, OSError, SyntaxError) as exc:
+        print("TRANSLATE-ERROR: dtw.distance: %s" % exc)
+        sys.exit(2)
     try:
         write_callsites(outdir)
     except (TranslateError, OSError, SyntaxError) as exc:
